@@ -258,7 +258,7 @@ def gen_decl(rng, ctx, depth, allow, in_group=False):
         args = [gen_type(rng, ctx, max(0, depth - 1), allow, as_arg=True) for _ in range(nargs)]
         void = (nargs == 0 and rng.random() < 0.6)
         dots = (rng.random() < (0.2 if nargs else 0.03))
-        d["funcs"].append(dict(args=args, void=void, dots=dots and not void))
+        d["funcs"].append(dict(args=args, void=void, dots=dots and not void and (nargs > 0 or allow.get("odd", True))))
         if d["group"] is None and d["hdr"] and False:
             pass
         if rng.random() < 0.05 and d["group"] is not None and d["group"]["abi"] is None:
